@@ -27,6 +27,7 @@ import json
 import multiprocessing as mp
 import os
 import random
+import re
 import shutil
 import sys
 import tempfile
@@ -77,20 +78,44 @@ def ev(op, **kw):
 class World:
     """one scratch directory + the objects living in one trace"""
 
-    def __init__(self, seed, tid):
+    def __init__(self):
+        # one root per worker chunk, *reset* to the pristine fixture before every trace (rmdir costs 1-2 ms on this file
+        # system, so a brand-new tree per trace would dominate the run): reset() verifies that the tree is pristine
         self.root = os.path.realpath(tempfile.mkdtemp(prefix="X03-%d-" % os.getpid(), dir="/tmp"))
+        self.by_dir = {self.dirpath(d): d for d in DIRS}
+        self.by_name = {v: k for k, v in NAMES.items()}
+        self.objs, self.stacks, self.rng = {}, {}, None
+
+    def reset(self, seed, tid):
         R = self.root
-        os.mkdir(os.path.join(R, "a"))
-        os.mkdir(os.path.join(R, "t"))
-        with open(os.path.join(R, "blk"), "w") as f:
-            f.write("a regular file: nothing can be made below it\n")
-        os.symlink("a", os.path.join(R, "la"))
-        os.symlink("t", os.path.join(R, "lt"))
+        self.close_blocks()
+        keep = {"a", "t", "blk", "la", "lt"}
+        for base, dnames, fnames in os.walk(R, topdown=False):
+            for x in fnames + dnames:
+                p = os.path.join(base, x)
+                if os.path.relpath(p, R) in keep:
+                    continue
+                if os.path.isdir(p) and not os.path.islink(p):
+                    os.rmdir(p)
+                else:
+                    os.unlink(p)
+        for d in ("a", "t"):
+            if not os.path.isdir(os.path.join(R, d)):
+                os.mkdir(os.path.join(R, d))
+        if not os.path.isfile(os.path.join(R, "blk")):
+            with open(os.path.join(R, "blk"), "w") as f:
+                f.write("a regular file: nothing can be made below it\n")
+        for l in ("a", "t"):
+            if not os.path.islink(os.path.join(R, "l" + l)):
+                os.symlink(l, os.path.join(R, "l" + l))
         self.rng = random.Random("%d/%d" % (seed, tid))
         self.objs = {}          # o -> dict(kind, obj, gen)
         self.stacks = {}        # k -> DirStack
-        self.by_dir = {self.dirpath(d): d for d in DIRS}
-        self.by_name = {v: k for k, v in NAMES.items()}
+        os.chdir(R)
+        p = self.project()
+        if (sorted(os.listdir(R)) != ["a", "blk", "la", "lt", "t"] or p["dirs"] != ["r", "a", "t"] or p["extra"] or p["cwd"] != "r"
+                or any(t != "absent" for fs in p["files"].values() for t in fs.values())):
+            raise MachineryError("scratch directory is not pristine after reset: %s %s" % (os.listdir(R), p))
 
     # ---- paths ---------------------------------------------------------------------------------
     def dirpath(self, d):
@@ -109,7 +134,8 @@ class World:
             styles.append("rel")
         if "expand" in allow:
             styles += ["tilde", "var", "bvar"]
-        if "dots" in allow and os.path.isdir(os.path.dirname(path)) and rel:
+        via = next((x for x in ("a", "t") if os.path.isdir(os.path.join(R, x))), None)
+        if "dots" in allow and os.path.isdir(os.path.dirname(path)) and rel and via:
             styles.append("dots")
         if "link" in allow and rel.split("/")[0] in ("a", "t"):
             styles.append("link")
@@ -126,7 +152,7 @@ class World:
             return "${X03ROOT}/" + rel
         if s == "dots":
             head, tail = os.path.split(path)
-            return os.path.join(head, "..", os.path.basename(head), tail) if head != R else os.path.join(R, "a", "..", tail)
+            return os.path.join(head, "..", os.path.basename(head), tail) if head != R else os.path.join(R, via, "..", tail)
         if s == "link":
             return os.path.join(R, "l" + rel)
         if s == "slash":
@@ -186,7 +212,7 @@ class World:
             stacks.append([self.by_dir.get(os.path.realpath(p), "other") for p in list(s.getstack())] if s else [])
         return {"files": files, "dirs": dirs, "cwd": cwd, "stacks": stacks, "extra": extra}
 
-    def cleanup(self):
+    def close_blocks(self):
         for rec in self.objs.values():
             g = rec.get("gen")
             if g is not None:
@@ -194,6 +220,9 @@ class World:
                     g.close()
                 except BaseException:
                     pass
+
+    def cleanup(self):
+        self.close_blocks()
         shutil.rmtree(self.root, ignore_errors=True)
 
 
@@ -247,10 +276,13 @@ def write_token(W, path, c, how=None):
         with open(path, "w") as f:
             f.write(TEXT[c])
         return "open"
-    how = how or W.rng.choice(["name", "name", "fileobj", "io", "notpretty"])
+    how = how or W.rng.choice(["name", "name", "fileobj", "io", "io_fileobj", "notpretty"])
     if how == "fileobj":
         with open(path, "w") as f:
             json_util.write(JDOC[c], f)
+    elif how == "io_fileobj":
+        with open(path, "w") as f:
+            eio.write(f, JDOC[c], **({} if path.endswith(".json") else {"type": "json"}))
     elif how == "io":
         if path.endswith(".json") and W.rng.random() < 0.5:
             eio.write(path, JDOC[c])
@@ -307,7 +339,11 @@ def exec_state(W, e, events, idx):
         if op == "so_write":
             if not os.path.isdir(os.path.dirname(obj.path)) or os.path.isdir(obj.path):
                 return None
-            info["how"] = write_token(W, obj.path, e["c"])
+            try:
+                info["how"] = write_token(W, obj.path, e["c"])
+            except Exception as x:            # json_util.write / io.write failed on a writable path
+                res["err"] = "rejected"
+                info["exc"] = "%s: %s" % (type(x).__name__, str(x)[:80])
             return res, info
         if op in ("so_exit", "si_exit"):
             if rec["gen"] is None or rec.get("exited"):
@@ -378,13 +414,16 @@ def exec_state(W, e, events, idx):
         return res, info
     if op == "jread":
         path = W.spell(W.fpath(e["d"], e["nm"]), {"rel"})
-        how = W.rng.choice(["name", "name", "fileobj", "io"])
-        if how == "fileobj" and not os.path.isfile(path):
+        how = W.rng.choice(["name", "name", "fileobj", "io", "io_fileobj"])
+        if how in ("fileobj", "io_fileobj") and not os.path.isfile(path):
             how = "name"
         info["how"] = how
         if how == "fileobj":
             with open(path) as f:
                 err, got, exc = _call(json_util.read, f)
+        elif how == "io_fileobj":
+            with open(path) as f:
+                err, got, exc = _call(eio.read, f, **({} if path.endswith(".json") else {"type": "json"}))
         elif how == "io":
             err, got, exc = _call(eio.read, path, **({} if path.endswith(".json") else {"type": "json"}))
         else:
@@ -511,7 +550,7 @@ def observe_dispatch(W, e):
             arg = rec.calls[0][1][1 if (e["dir"] == "write" and val == "json") else 0]   # json_util.write(data, fobj)
             if not (isinstance(arg, str) and os.path.realpath(os.path.expanduser(os.path.expandvars(arg))) == os.path.realpath(fname)):
                 val = "wrong_file_argument"
-            if e["dir"] == "read" and val in kind.values() | {"json"} and got != "X03-SENTINEL":
+            if e["dir"] == "read" and val in set(kind.values()) | {"json"} and got != "X03-SENTINEL":
                 val = "result_not_returned"
     return err, val, exc, "io.%s(%r%s)" % (e["dir"], spelled, "".join(", %s=%r" % kv for kv in kw.items()))
 
@@ -549,8 +588,8 @@ def exec_pure(W, e):
     elif op == "jrt":
         v = j_value(e["v"])
         path = os.path.join(W.root, "x03-jrt.json")
-        how_w = W.rng.choice(["name", "fileobj", "io", "notpretty"])
-        how_r = W.rng.choice(["name", "fileobj", "io"])
+        how_w = W.rng.choice(["name", "fileobj", "io", "io_fileobj", "notpretty"])
+        how_r = W.rng.choice(["name", "fileobj", "io", "io_fileobj"])
         info["how"] = [how_w, how_r]
         try:
             if how_w == "fileobj":
@@ -558,6 +597,9 @@ def exec_pure(W, e):
                     err, _, exc = _call(json_util.write, v, f)
             elif how_w == "io":
                 err, _, exc = _call(eio.write, path, v)
+            elif how_w == "io_fileobj":
+                with open(path, "w") as f:
+                    err, _, exc = _call(eio.write, f, v)
             elif how_w == "notpretty":
                 err, _, exc = _call(json_util.write, v, path, pretty=False)
             else:
@@ -569,6 +611,9 @@ def exec_pure(W, e):
                         err, got, exc = _call(json_util.read, f)
                 elif how_r == "io":
                     err, got, exc = _call(eio.read, path)
+                elif how_r == "io_fileobj":
+                    with open(path) as f:
+                        err, got, exc = _call(eio.read, f)
                 else:
                     err, got, exc = _call(json_util.read, path)
         finally:
@@ -605,22 +650,25 @@ def _quiet():
         _QUIET = True
 
 
-def run_trace(job):
+def run_trace(job, W=None):
     """job = (id, events, seed) -> {"id", "events", "seed", "done": [event + res + obs + info]}"""
     tid, events, seed = job
     cwd0 = os.getcwd()
     env0 = {k: os.environ.get(k) for k in ("HOME", "X03ROOT")}
-    W = World(seed, tid)
+    own = W is None
+    if own:
+        W = World()
     done = []
     try:
         os.environ["HOME"] = W.root
         os.environ["X03ROOT"] = W.root
-        os.chdir(W.root)
+        W.reset(seed, tid)
         for idx, e in enumerate(events):
             out = exec_pure(W, e) if e["op"] in PURE_OPS else exec_state(W, e, events, idx)
             if out is None:
                 continue
             res, info = out
+            info = {k: (v.replace(W.root, "<R>") if isinstance(v, str) else v) for k, v in info.items()}
             d = dict(e)
             d["res"] = res
             d["obs"] = W.project()
@@ -633,29 +681,58 @@ def run_trace(job):
                 os.environ.pop(k, None)
             else:
                 os.environ[k] = v
-        W.cleanup()
+        W.close_blocks()
+        if own:
+            W.cleanup()
     return {"id": tid, "events": events, "seed": seed, "done": done}
 
 
 def _worker(chunk):
     _quiet()
-    return [run_trace(j) for j in chunk]
+    W = World()
+    try:
+        return [run_trace(j, W) for j in chunk]
+    finally:
+        W.cleanup()
+
+
+def make_pool():
+    """forked workers, created while the process is still single-threaded (the TLC runs are driven by threads later)"""
+    nproc = max(1, min(16, os.cpu_count() or 1, int(os.environ.get("VH_MAX_WORKERS", "16"))))
+    sys.stdout.flush()
+    return mp.get_context("fork").Pool(nproc), nproc
+
+
+def close_pool(pool):
+    """stop the workers and remove whatever scratch directory a worker that was stopped mid-trace left behind"""
+    import glob
+    pids = [p.pid for p in getattr(pool, "_pool", [])]
+    pool.terminate()
+    pool.join()
+    for pid in pids:
+        for d in glob.glob("/tmp/X03-%d-*" % pid):
+            shutil.rmtree(d, ignore_errors=True)
+
+
+def pool_map(pool, nproc, jobs):
+    jobs = list(jobs)
+    if not jobs:
+        return []
+    size = max(1, min(400, len(jobs) // (nproc * 4) or 1))
+    chunks = [jobs[i:i + size] for i in range(0, len(jobs), size)]
+    out = []
+    for part in pool.imap(_worker, chunks):
+        out.extend(part)
+    return out
 
 
 def fork_map(jobs):
     """always in forked children: the replays change the working directory and the environment of their process"""
-    jobs = list(jobs)
-    if not jobs:
-        return []
-    nproc = max(1, min(16, os.cpu_count() or 1, int(os.environ.get("VH_MAX_WORKERS", "16"))))
-    size = max(1, min(400, len(jobs) // (nproc * 4) or 1))
-    chunks = [jobs[i:i + size] for i in range(0, len(jobs), size)]
-    sys.stdout.flush()
-    with mp.get_context("fork").Pool(min(nproc, len(chunks))) as pool:
-        out = []
-        for part in pool.imap(_worker, chunks):
-            out.extend(part)
-    return out
+    pool, nproc = make_pool()
+    try:
+        return pool_map(pool, nproc, jobs)
+    finally:
+        close_pool(pool)
 
 
 # ---------------------------------------------------------------------------------------------------
@@ -797,7 +874,14 @@ def pure_class(e):
         walk(e["v"])
         return "+".join(sorted(types))
     if op == "dispatch":
-        return "%s,ext=%s,type=%s" % (e["dir"], ".".join(e["parts"]) or "none", e["kw"])
+        doc = {"fits", "rec", "xml", "json", "yaml", "pyobj"}
+
+        def k(x):
+            return ("documented" if x in doc else "compression" if x in ("gz", "bz", "bz2") else
+                    "synonym" if x.lower() in doc | {"fit", "pya"} else "unknown")
+        parts = e["parts"]
+        ext = "none" if not parts else k(parts[-1]) + ("(%s)" % k(parts[-2]) if k(parts[-1]) == "compression" and len(parts) > 1 else "")
+        return "%s,%s" % (e["dir"], "ext=" + ext if e["kw"] == "none" else "type=" + k(e["kw"]))
     return ""
 
 
@@ -819,6 +903,12 @@ def judge(ctx, recs, what, report=True):
         if not report:
             continue
         e = rec["done"][step - 1]
+        if clauses[0] == "exception_swallowed":
+            cls = {"exc": "yes"}
+        elif clauses[0] in ("unexpected_error", "not_rejected"):
+            cls = {k: v for k, v in cls.items() if k != "finalfile"}
+        else:
+            cls = {k: v for k, v in cls.items() if k != "must"}
         c = pure_class(e) if e["op"] in PURE_OPS else ",".join("%s=%s" % kv for kv in sorted(cls.items()))
         sig = "%s|%s|%s" % (ENTRY[e["op"]], clauses[0], c)
         call = {k: e[k] for k in PURE_FIELDS.get(e["op"], EV_FIELDS) if e[k] not in ("none", 0, False)}
@@ -865,40 +955,45 @@ DP_KWS = {"none", "json", "rec", "REC", "bogus", "pyobj", "fit"}
 TIERS = {
     "quick": dict(
         models=[("1 object, 1 stack, depth 4", dict(SMALL, MaxDepth=4)),
-                ("2 objects, 2 names, staging only, depth 3",
-                 dict(SMALL, Objs={1, 2}, Names={"f", "g"}, MaxDepth=3, Acts=SO_ACTS | SI_ACTS))],
+                ("2 objects, staging only, depth 3", dict(SMALL, Objs={1, 2}, MaxDepth=3, Acts=SO_ACTS | SI_ACTS))],
         strict=dict(SMALL, MaxDepth=5, Acts=SO_ACTS, Conts={"c1", "p1"}),
         families=[("StagedOutFile", SO_ACTS, dict(SMALL, MaxDepth=3, Conts={"c1", "p1"}, PutDirs={"a"}), 3),
                   ("StagedInFile", SI_ACTS, dict(SMALL, MaxDepth=3, Conts={"c1"}, PutDirs={"a"}), 3),
-                  ("DirStack + makedirs_fromfile", DS_ACTS, dict(SMALL, MaxDepth=3), 3)],
-        tour=dict(SMALL, MaxDepth=4), tour_keep=1500,
-        simulate=dict(num=150, depth=12, keep=800, consts=WIDE),
+                  ("DirStack + makedirs_fromfile", DS_ACTS, dict(SMALL, MaxDepth=3, PushDirs={"a", "n", "b"},
+                                                                 MkDirs={"none", "m", "b"}), 3)],
+        family_keep=5000,
+        tour=dict(SMALL, MaxDepth=3), tour_keep=800,
+        simulate=dict(num=60, depth=10, keep=400, consts=WIDE),
         random=300,
         pure=[dict(PJLeaves={"/tmp", "test", "file.txt"}, PJMode="nest", EXAlphabet=EX_ALPHABET, EXMaxLen=2,
                    JLeafIds=J_LEAVES, JDepth=1, DPExts=DP_EXTS, DPKws=DP_KWS, DPMaxLen=2),
               dict(PJLeaves={"/tmp", "test", "", "dir/", "/usr"}, PJMode="flat", JLeafIds={"i0", "sesc", "npint"}, JDepth=2,
                    Acts={"pjoin", "jrt"})],
-        pure_keep=6000,
+        pure_keep=3000,
     ),
     "thorough": dict(
         models=[("1 object, 1 stack, depth 6", dict(SMALL, MaxDepth=6)),
-                ("2 objects, 2 names, 2 stacks, depth 4", dict(SMALL, Objs={1, 2}, Names={"f", "g"}, Stacks={1, 2}, MaxDepth=4)),
-                ("3 objects, all directories, staging only, depth 4",
-                 dict(WIDE, Stacks={1}, Names={"f"}, MaxDepth=4, Acts=SO_ACTS | SI_ACTS, Conts={"c1", "p1"}))],
+                ("2 objects, 2 stacks, depth 4", dict(SMALL, Objs={1, 2}, Stacks={1, 2}, MaxDepth=4)),
+                ("2 objects, 2 names, staging only, depth 4",
+                 dict(SMALL, Objs={1, 2}, Names={"f", "g"}, MaxDepth=4, Acts=SO_ACTS | SI_ACTS)),
+                ("2 objects, all directories, staging only, depth 3",
+                 dict(WIDE, Objs={1, 2}, Stacks={1}, Names={"f"}, MaxDepth=3, Acts=SO_ACTS | SI_ACTS, Conts={"c1", "p1"}))],
         strict=dict(SMALL, Objs={1, 2}, MaxDepth=6, Acts=SO_ACTS, Conts={"c1", "p1"}),
         families=[("StagedOutFile", SO_ACTS, dict(SMALL, MaxDepth=4, Conts={"c1", "p1"}, PutDirs={"a"}), 4),
                   ("StagedInFile", SI_ACTS, dict(SMALL, MaxDepth=4, Conts={"c1"}, PutDirs={"a"}), 4),
-                  ("DirStack + makedirs_fromfile", DS_ACTS, dict(SMALL, MaxDepth=4), 4),
+                  ("DirStack + makedirs_fromfile", DS_ACTS, dict(SMALL, MaxDepth=4, PushDirs={"a", "n", "b"},
+                                                                 MkDirs={"none", "m", "b"}), 4),
                   ("json_util on staged paths", JS_ACTS, dict(SMALL, MaxDepth=4, Conts={"c1", "j1"}, PutDirs={"a"},
                                                               TmpDirs={"none", "t"}, FinDirs={"a"}), 4)],
-        tour=dict(SMALL, Objs={1, 2}, MaxDepth=5), tour_keep=12000,
-        simulate=dict(num=1500, depth=14, keep=8000, consts=WIDE),
+        family_keep=16000,
+        tour=dict(SMALL, MaxDepth=5), tour_keep=10000,
+        simulate=dict(num=1500, depth=14, keep=6000, consts=WIDE),
         random=4000,
         pure=[dict(PJLeaves={"/tmp", "test", "file.txt", "test1"}, PJMode="nest", EXAlphabet=EX_ALPHABET, EXMaxLen=3,
                    JLeafIds=J_LEAVES, JDepth=1, DPExts=DP_EXTS, DPKws=DP_KWS, DPMaxLen=3),
               dict(PJLeaves={"/tmp", "test", "file.txt", "", "dir/", "/usr"}, PJMode="flat",
                    JLeafIds={"i0", "f01", "sesc", "null", "npint"}, JDepth=2, Acts={"pjoin", "jrt"})],
-        pure_keep=40000,
+        pure_keep=24000,
     ),
 }
 
@@ -946,20 +1041,80 @@ def sample(items, keep, seed):
     return [items[i] for i in sorted(rng.sample(range(len(items)), keep))]
 
 
+def sample_by_call(cases, keep, seed):
+    """all cases of the calls with few cases, a seeded sample of the others (same share each)"""
+    by = {}
+    for b in cases:
+        by.setdefault(b[0]["op"], []).append(b)
+    left, out = keep, []
+    for n, op in enumerate(sorted(by, key=lambda o: len(by[o]))):
+        share = left // (len(by) - n)
+        got = sample(by[op], share, seed + n)
+        left -= len(got)
+        out += got
+    return out
+
+
+def tally_silent(all_recs):
+    """what the real code did where the documentation is silent (bookkeeping for the evidence file, no judgement)"""
+    T = {}
+
+    def add(k, v):
+        T.setdefault(k, {})
+        T[k][v] = T[k].get(v, 0) + 1
+    init = {"files": {d: {nm: "absent" for nm in NAME_IDS} for d in DIRS}, "dirs": ["r", "a", "t"], "stacks": [[], []]}
+    for r in all_recs:
+        made = {}
+        for i, e in enumerate(r["done"]):
+            before = r["done"][i - 1]["obs"] if i else init
+            op = e["op"]
+            if op == "so_create" and e["res"]["err"] == "none":
+                made[e["o"]] = dict(e)
+            if (op in ("so_create", "si_create") and e["td"] not in ("none", "b", e["d"]) and e["td"] not in before["dirs"]
+                    and (op == "so_create" or (e["d"] != "b" and before["files"][e["d"]][e["nm"]] != "absent"))):
+                add(ENTRY[op] + ": tmpdir does not exist",
+                    "rejected" if e["res"]["err"] != "none" else "created" if e["td"] in e["obs"]["dirs"] else "not created")
+            if op == "so_exit" and e["exc"] and e["o"] in made:
+                c = made[e["o"]]
+                tp = e_path = c["res"]["path"]
+                if tp[0] != c["d"] and tp[0] in before["files"] and before["files"][tp[0]][tp[1]] != "absent":
+                    now_t = e["obs"]["files"][tp[0]][tp[1]]
+                    add("StagedOutFile: with-block raised, temporary file present",
+                        "temporary file kept" if now_t != "absent" else
+                        "staged out to the final path" if e["obs"]["files"][c["d"]][c["nm"]] == before["files"][tp[0]][tp[1]]
+                        else "discarded")
+                if tp[0] != c["d"] and tp[0] in before["files"] and before["files"][tp[0]][tp[1]] == "absent" and c["must"]:
+                    add("StagedOutFile(must_exist=True): with-block raised, no temporary file",
+                        "the block's exception propagates" if e["res"]["err"] == "none" else "replaced by " + e["info"].get("exc", "?").split(":")[0])
+            if op == "pop":
+                st = before["stacks"][e["k"] - 1]
+                if not st:
+                    add("DirStack.pop on an empty stack", "returns" if e["res"]["err"] == "none" else "raises")
+                elif st[-1] not in before["dirs"]:
+                    add("DirStack.pop to a directory that no longer exists",
+                        ("raises" if e["res"]["err"] != "none" else "returns") + ", entry " +
+                        ("lost" if len(e["obs"]["stacks"][e["k"] - 1]) < len(st) else "kept"))
+            if op == "mk" and e["d"] == "b":
+                add("makedirs_fromfile(allow_fail=%s), directory cannot be made" % e["af"],
+                    "raises" if e["res"]["err"] != "none" else "returns silently")
+            if op in ("so_stageout", "so_exit") and e["o"] in made:
+                c = made[e["o"]]
+                tp = c["res"]["path"]
+                had = tp[0] != c["d"] and tp[0] in before["files"] and before["files"][tp[0]][tp[1]] != "absent"
+                again = c.get("moved", False)
+                if had and e["obs"]["files"][tp[0]][tp[1]] == "absent" and e["res"]["err"] == "none":
+                    c["moved"] = True
+                if op == "so_stageout" and had and again:
+                    add("StagedOutFile.stage_out again, temporary file rewritten",
+                        "ignored (temporary file stays)" if e["obs"]["files"][tp[0]][tp[1]] != "absent" else "staged out again")
+    return {k: dict(sorted(v.items())) for k, v in sorted(T.items())}
+
+
 def count_trace(ctx, r):
     ops = {e["op"] for e in r["done"]}
     ctx.count({"e": [{k: v for k, v in e.items() if k in EV_FIELDS or k in ("args", "comps", "v", "parts", "kw", "dir")}
                      for e in r["done"]], "i": [e["info"].get("call") or e["info"].get("how") for e in r["done"]]},
               nontrivial=bool(ops - {"getstack", "jread", "put", "rmdir"}))
-
-
-def run_and_judge(ctx, behaviours, what, id0):
-    recs = fork_map((id0 + i, evs, ctx.seed) for i, evs in enumerate(behaviours))
-    for r in recs:
-        count_trace(ctx, r)
-    rejects = judge(ctx, recs, "judge " + what + " (StagingTrace)")
-    ctx.log("%-46s %6d traces, %d rejected" % (what, len(recs), len(rejects)))
-    return recs
 
 
 # ---- seeded random call sequences that need not follow the protocol (code -> spec) -----------------
@@ -1008,7 +1163,7 @@ def random_events(rng):
 
 
 # ---- binding self-test -----------------------------------------------------------------------------
-def _corrupt(rec, rng):
+def _corrupt(rec, rng, only_kind=None):
     """-> (corrupted tla record, step, expected clause) or None"""
     evs = [tla_event(e) for e in rec["done"]]
     evs = json.loads(json.dumps(evs))
@@ -1026,14 +1181,20 @@ def _corrupt(rec, rng):
             cands.append((i, "stack", None, None))
         if e["op"] == "mk" and e["res"]["err"] == "none" and "n" in e["obs"]["dirs"]:
             cands.append((i, "dirs", None, None))
-        if e["op"] == "pjoin" and e["res"]["err"] == "none" and e["res"]["val"]:
+        # (only cases the specification constrains: no empty sequence / non-string in path_join, JSON-native values)
+        if (e["op"] == "pjoin" and e["res"]["err"] == "none" and e["res"]["val"]
+                and not ({"empty", "nonstring"} & set(re.split("[,+]", pure_class(e))))):
             cands.append((i, "value", None, None))
-        if e["op"] == "jrt" and e["res"]["err"] == "none" and e["res"]["val"]["t"] == "list" and e["res"]["val"]["k"]:
+        if (e["op"] == "jrt" and e["res"]["err"] == "none" and e["res"]["val"]["t"] == "list" and e["res"]["val"]["k"]
+                and set(pure_class(e).split("+")) <= {"int", "float", "str", "bool", "null", "list", "tuple", "dict"}):
             cands.append((i, "jvalue", None, None))
         if e["op"] == "dispatch" and e["res"]["err"] == "none" and e["res"]["val"] == "json":
             cands.append((i, "dvalue", None, None))
-        if e["op"] == "expand" and e["res"]["err"] == "none" and "x03home" in e["res"]["val"]:
+        if e["op"] == "expand" and e["res"]["err"] == "none" and "x03home" in e["res"]["val"] and e["comps"][0] == "~":
             cands.append((i, "evalue", None, None))
+    if only_kind == "?":
+        return {c[1] for c in cands}
+    cands = [c for c in cands if only_kind in (None, c[1])]
     if not cands:
         return None
     i, kind, d, nm = rng.choice(cands)
@@ -1072,26 +1233,25 @@ def selftest(ctx, all_recs):
     """corrupt one recorded observation of traces TLC accepted: TLC must reject exactly the corrupted copies, at that
     step, naming the corrupted clause"""
     rng = random.Random(ctx.seed * 31 + 7)
-    recs, expect, kinds = [], {}, {}
+    recs, expect = [], {}
     pool = [r for r in all_recs if not r.get("rejected") and r["done"]]
     rng.shuffle(pool)
-    k = 0
+    KINDS = ["content", "stray", "cwd", "stack", "dirs", "value", "jvalue", "dvalue", "evalue"]
     per_kind = {}
-    for r in pool:
-        c = _corrupt(r, rng)
-        if c is None:
-            continue
-        evs, step, want, kind = c
-        if per_kind.get(kind, 0) >= 8:
-            continue
-        per_kind[kind] = per_kind.get(kind, 0) + 1
-        k += 1
-        recs.append({"id": 2 * k, "ev": evs})
-        expect[2 * k] = (step, want, kind)
-        recs.append({"id": 2 * k + 1, "ev": [tla_event(e) for e in r["done"]][:step]})
-        if k >= 60:
-            break
-    missing = {"content", "cwd", "stack", "value", "jvalue", "dvalue", "evalue", "stray", "dirs"} - set(per_kind)
+    k = 0
+    for kind in KINDS:
+        for r in pool:
+            if per_kind.get(kind, 0) >= 6:
+                break
+            if kind not in _corrupt(r, rng, "?"):
+                continue
+            evs, step, want, _ = _corrupt(r, rng, kind)
+            per_kind[kind] = per_kind.get(kind, 0) + 1
+            k += 1
+            recs.append({"id": 2 * k, "ev": evs})
+            expect[2 * k] = (step, want, kind)
+            recs.append({"id": 2 * k + 1, "ev": [tla_event(e) for e in r["done"]][:step]})
+    missing = set(KINDS) - set(per_kind)
     if missing:
         raise MachineryError("self-test: no accepted trace to corrupt for %s" % sorted(missing))
     rej = validate(ctx, recs, "self-test: corrupted observations rejected", count=False)
@@ -1108,29 +1268,105 @@ def selftest(ctx, all_recs):
 
 
 # ---- the check -----------------------------------------------------------------------------------------
+ASSUMPTIONS = [
+    "contract = docstrings of esutil/ostools.py, json_util.py, io.py and RELEASE_NOTES (clauses O1-O5, I1-I3, D1-D3, M1, P1, "
+    "E1, J1, T1 at the top of spec/Staging.tla); where they are silent every outcome is accepted",
+    "a with-block left by an exception: staged out as on a normal exit, temporary file kept, or temporary file discarded "
+    "are all accepted (the strict reading is evaluated as a lead only)",
+    "missing tmpdir / final directory: created or the call rejected; stage_out a second time: nothing or staged again; pop "
+    "on an empty stack: nothing or rejected; pop to a vanished directory: rejected, entry kept or lost",
+    "makedirs_fromfile(allow_fail=): docstring and RELEASE_NOTES contradict each other - when the directory cannot be made "
+    "raising and returning silently are both accepted for both values",
+    "path_join with empty sequences, expand_path of an unknown ~user, json of numpy types / nan / inf / non-string keys, io "
+    "dispatch on undocumented synonyms, upper-case extensions and compression suffixes (intended type or rejection): "
+    "unconstrained",
+    "crash points inside stage_out (between os.remove of the old final file and shutil.move) are not modelled; concurrent "
+    "processes are not modelled (one call at a time); hdfs paths and exec_process are out of scope",
+    "io dispatch is observed with every reader / writer replaced by a recording stub (only the choice is judged); real "
+    "round trips through io.read / io.write are made for json only",
+]
+
+
+def execute_and_judge(ctx, T, R, part, pool, nproc):
+    # ---- the groups of call sequences to execute, in a fixed order --------------------------------------------------
+    groups = []          # (label, kind, [event lists])
+    # 2. spec -> code: every behaviour of a length, per protocol family
+    for name, acts, consts, depth in T["families"]:
+        if "fam:" + name in R:
+            behs = sample(R["fam:" + name], T["family_keep"], ctx.seed * 2750159 + 13)
+            groups.append(("%s behaviour of length %d: %s" % ("every" if len(behs) == len(R["fam:" + name]) else
+                                                              "%d of %d" % (len(behs), len(R["fam:" + name])), depth, name),
+                           "fam:" + name, behs))
+            ctx.note(**{"behaviours_" + name.split()[0]: len(R["fam:" + name]),
+                        "behaviours_" + name.split()[0] + "_replayed": len(behs)})
+    # 3. spec -> code: transition tour of the combined graph
+    if "tour" in R:
+        nedges, nmax, keep = R["tour"]
+        groups.append(("transition tour", "tour", keep))
+        ctx.note(tour_edges=nedges, tour_maximal_histories=nmax, tour_histories_replayed=len(keep))
+    # 4. spec -> code: long simulated behaviours of the wide model
+    if "sim:0" in R:
+        sims = R["sim:0"][1] + R["sim:1"][1]
+        groups.append(("simulated behaviours", "sim", sims))
+        ctx.note(simulated_behaviours_exported=R["sim:0"][0] + R["sim:1"][0], simulated_behaviours_replayed=len(sims))
+    # 5. code -> spec: seeded random call sequences that need not follow the protocol
+    if part("random"):
+        rng = random.Random(ctx.seed * 1000003 + 17)
+        groups.append(("seeded random call sequences", "random", [random_events(rng) for _ in range(T["random"])]))
+        ctx.note(random_sequences=T["random"])
+    # 6. the pure calls: every enumerated case (a sample of them when there are more than pure_keep)
+    if "pure:0" in R:
+        cases = [b for i in range(len(T["pure"])) for b in R["pure:%d" % i]]
+        ncases = len(cases)
+        cases = sample_by_call(cases, T["pure_keep"], ctx.seed * 15485863 + 3)
+        groups.append(("pure calls", "pure", cases))
+        ctx.note(pure_cases_enumerated=ncases, pure_cases_executed=len(cases),
+                 pure_cases_by_call={op: sum(1 for b in cases if b[0]["op"] == op) for op in PURE_OPS})
+
+    # ---- execute everything on the real code (forked workers), then judge everything with StagingTrace.tla ----------
+    jobs, owner = [], []
+    for label, kind, behs in groups:
+        for evs in behs:
+            jobs.append((len(jobs) + 1, evs, ctx.seed))
+            owner.append(kind)
+    all_recs = pool_map(pool, nproc, jobs)
+    ctx.log("executed %d call sequences (%d calls) on the real code" % (len(all_recs), sum(len(r["done"]) for r in all_recs)))
+    for r, kind in zip(all_recs, owner):
+        r["group"] = kind
+        count_trace(ctx, r)
+    ctx.note(observed_where_documentation_is_silent=tally_silent(all_recs))
+    rejects = judge(ctx, all_recs, "judge the recorded traces (StagingTrace)")
+    for label, kind, behs in groups:
+        ctx.log("%-50s %6d traces, %d rejected" % (label, len(behs), sum(1 for r in all_recs if r["group"] == kind and r.get("rejected"))))
+    return all_recs, groups
+
+
 def run(ctx):
+    from concurrent.futures import ThreadPoolExecutor
     T = TIERS[ctx.tier]
     only = getattr(ctx, "only", None) or set()
 
     def part(name):
         return not only or name in only
 
-    # 1. design level: the theorems of Staging.tla on every bounded history (the reading used for verdicts: StrictExc = FALSE)
-    if part("mc"):
-        for what, consts in T["models"]:
-            acts = consts.get("Acts")
-            req = REQUIRE if acts is None else [a for a in REQUIRE if _act_of(a) in acts]
-            ctx.tlc("StagingMC.tla", what="Staging histories: " + what,
-                    cfg_text=cfg(constants=mc_constants(consts), constraints=["Bounded"], invariants=INVS,
-                                 properties=["StagingProps"]),
-                    workers=16, require=req, timeout=3000)
-        # the strict reading (a block that raised never reaches the final path) has the theorem FinalNeverPartial;
-        # the lenient reading - all the documentation supports - does not: shown by a violated run (self-test of the theorem)
-        S = T["strict"]
+    # ---- TLC runs: the design-level checks and the exports are independent of each other: a few at a time -------------
+    def model(what, consts):
+        acts = consts.get("Acts")
+        req = REQUIRE if acts is None else [a for a in REQUIRE if _act_of(a) in acts]
+        ctx.tlc("StagingMC.tla", what="Staging histories: " + what,
+                cfg_text=cfg(constants=mc_constants(consts), constraints=["Bounded"], invariants=INVS,
+                             properties=["StagingProps"]),
+                workers=16, require=req, timeout=3000)
+
+    def strict_holds(S):
+        # the strict reading (a block that raised never reaches the final path) has the theorem FinalNeverPartial ...
         ctx.tlc("StagingMC.tla", what="strict reading: FinalNeverPartial holds (depth %d)" % S["MaxDepth"],
                 cfg_text=cfg(constants=mc_constants(S, strict=True), constraints=["Bounded"], invariants=["FsInv", "ObjInv"],
                              properties=["StagingProps", "FinalNeverPartial"]),
                 workers=16, require=["MSORaise", "MSOExit", "MSOStageOut", "MSOWrite"], timeout=3000)
+
+    def lenient_violates(S):
+        # ... the documented reading does not: shown by a violated run (self-test of the theorem)
         r = ctx.tlc("StagingMC.tla", what="documented reading: FinalNeverPartial is NOT a theorem (violated)",
                     cfg_text=cfg(constants=mc_constants(S, strict=False), constraints=["Bounded"],
                                  properties=["FinalNeverPartial"]),
@@ -1138,169 +1374,142 @@ def run(ctx):
         if not any("FinalNeverPartial" in v for v in r.violated):
             raise MachineryError("self-test: the lenient reading does not violate FinalNeverPartial")
 
-    nid = 1
-    all_recs = []
-    so_recs = []
-    # 2. spec -> code: every behaviour of a length, per protocol family
-    if part("behaviours"):
-        for name, acts, consts, depth in T["families"]:
-            r = ctx.tlc("StagingMC.tla", what="export every behaviour of length %d: %s" % (depth, name),
-                        cfg_text=cfg(constants=mc_constants(consts, keep=True, export_at=depth, acts=acts),
-                                     constraints=["Bounded", "Export"]),
-                        workers=1, coverage=False, timeout=3000)
-            behs = dedupe(r.records.get("BEH", []))
-            if not behs:
-                raise MachineryError("no behaviours exported for %s" % name)
-            recs = run_and_judge(ctx, behs, "every behaviour of length %d: %s" % (depth, name), nid)
-            nid += len(recs)
-            all_recs += recs
-            if name == "StagedOutFile":
-                so_recs = recs
-            ctx.note(**{"behaviours_" + name.split()[0]: len(behs)})
-    # 3. spec -> code: transition tour of the combined graph
-    if part("tour"):
-        U = T["tour"]
+    def export_family(name, acts, consts, depth):
+        r = ctx.tlc("StagingMC.tla", what="export every behaviour of length %d: %s" % (depth, name),
+                    cfg_text=cfg(constants=mc_constants(consts, keep=True, export_at=depth, acts=acts),
+                                 constraints=["Bounded", "Export"]),
+                    workers=1, coverage=False, timeout=3000)
+        behs = dedupe(r.records.get("BEH", []))
+        if not behs:
+            raise MachineryError("no behaviours exported for %s" % name)
+        return behs
+
+    def export_tour(U):
         r = ctx.tlc("StagingMC.tla", what="export transition tour (depth %d)" % U["MaxDepth"],
                     cfg_text=cfg(constants=mc_constants(U, keep=True, export_at=0), constraints=["Bounded", "Export"],
                                  view="View"),
                     workers=1, coverage=False, timeout=3000)
         edges = dedupe(r.records.get("BEH", []))
-        keep = maximal(edges)
-        nedges, nmax = len(edges), len(keep)
-        keep = sample(keep, T["tour_keep"], ctx.seed * 7919 + 11)
+        keep = maximal(edges)       # an edge history that is a proper prefix of another one is replayed as part of it
         if not keep:
             raise MachineryError("empty transition tour")
-        recs = run_and_judge(ctx, keep, "transition tour", nid)
-        nid += len(recs)
-        all_recs += recs
-        ctx.note(tour_edges=nedges, tour_maximal_histories=nmax, tour_histories_replayed=len(keep))
-    # 4. spec -> code: long simulated behaviours of the wide model
-    if part("simulate"):
-        S = T["simulate"]
-        sims = []
-        nsims = 0
-        for k, acts in enumerate([ALL_ACTS, SO_ACTS | SI_ACTS | {"push", "pop", "mk"}]):
-            r = ctx.tlc("StagingMC.tla", what="simulate %d behaviours of depth %d (%s)" %
-                        (S["num"], S["depth"], "all calls" if k == 0 else "staging + directory stack"),
-                        cfg_text=cfg(constants=mc_constants(dict(S["consts"], MaxDepth=S["depth"]), keep=True,
-                                                            export_at=S["depth"], acts=acts),
-                                     constraints=["Export"]),
-                        workers=1, coverage=False, timeout=3000, simulate="num=%d" % S["num"],
-                        extra=["-depth", str(S["depth"] + 1), "-seed", str(ctx.seed + 1 + k)])
-            got = dedupe(r.records.get("BEH", []))
-            if len(got) < S["num"] // 2:
-                raise MachineryError("simulation exported only %d behaviours" % len(got))
-            nsims += len(got)
-            sims += sample(got, S["keep"] // 2, ctx.seed * 104729 + 5 + k)
-        recs = run_and_judge(ctx, sims, "simulated behaviours", nid)
-        nid += len(recs)
-        all_recs += recs
-        ctx.note(simulated_behaviours_exported=nsims, simulated_behaviours_replayed=len(sims))
-    # 5. code -> spec: seeded random call sequences that need not follow the protocol
-    if part("random"):
-        rng = random.Random(ctx.seed * 1000003 + 17)
-        seqs = [random_events(rng) for _ in range(T["random"])]
-        recs = run_and_judge(ctx, seqs, "seeded random call sequences", nid)
-        nid += len(recs)
-        all_recs += recs
-        ctx.note(random_sequences=len(recs))
-    # 6. the pure calls: every enumerated case
-    if part("pure"):
-        cases = []
-        for i, P in enumerate(T["pure"]):
-            acts = P.get("Acts", set(PURE_OPS))
-            consts = dict(SMALL, MaxDepth=1)
-            consts.update({k: v for k, v in P.items() if k != "Acts"})
-            r = ctx.tlc("StagingMC.tla", what="enumerate the cases of the pure calls (%d: %s)" % (i + 1, ", ".join(sorted(acts))),
-                        cfg_text=cfg(constants=mc_constants(consts, keep=True, export_at=1, acts=acts), next_="PureNext",
-                                     invariants=["PureInv"], constraints=["Bounded", "Export"]),
-                        workers=1, coverage=False, timeout=3000)
-            got = dedupe(r.records.get("BEH", []))
-            missing = acts - {b[0]["op"] for b in got}
-            if missing:
-                raise MachineryError("no cases exported for %s" % sorted(missing))
-            cases += got
-        ncases = len(cases)
-        cases = sample(cases, T["pure_keep"], ctx.seed * 15485863 + 3)
-        single = fork_map((nid + i, b, ctx.seed) for i, b in enumerate(cases))
-        for r in single:
-            count_trace(ctx, r)
-        rejects = judge_pure(ctx, single)
-        ctx.log("%-46s %6d cases, %d rejected" % ("pure calls", len(single), len(rejects)))
-        nid += len(single)
-        all_recs += single
-        ctx.note(pure_cases_enumerated=ncases, pure_cases_executed=len(single),
-                 pure_cases_by_call={op: sum(1 for r in single if r["done"][0]["op"] == op) for op in PURE_OPS})
+        return len(edges), len(keep), sample(keep, T["tour_keep"], ctx.seed * 7919 + 11)
+
+    def export_sim(S, k, acts, label):
+        r = ctx.tlc("StagingMC.tla", what="simulate %d behaviours of depth %d (%s)" % (S["num"], S["depth"], label),
+                    cfg_text=cfg(constants=mc_constants(dict(S["consts"], MaxDepth=S["depth"]), keep=True,
+                                                        export_at=S["depth"], acts=acts),
+                                 constraints=["Export"]),
+                    workers=1, coverage=False, timeout=3000, simulate="num=%d" % S["num"],
+                    extra=["-depth", str(S["depth"] + 1), "-seed", str(ctx.seed + 1 + k)])
+        got = dedupe(r.records.get("BEH", []))
+        if len(got) < S["num"] // 2:
+            raise MachineryError("simulation exported only %d behaviours" % len(got))
+        return len(got), sample(got, S["keep"] // 2, ctx.seed * 104729 + 5 + k)
+
+    def export_pure(i, P):
+        acts = P.get("Acts", set(PURE_OPS))
+        consts = dict(SMALL, MaxDepth=1)
+        consts.update({k: v for k, v in P.items() if k != "Acts"})
+        r = ctx.tlc("StagingMC.tla", what="enumerate the cases of the pure calls (%d: %s)" % (i + 1, ", ".join(sorted(acts))),
+                    cfg_text=cfg(constants=mc_constants(consts, keep=True, export_at=1, acts=acts), next_="PureNext",
+                                 invariants=["PureInv"], constraints=["Bounded", "Export"]),
+                    workers=1, coverage=False, timeout=3000)
+        got = dedupe(r.records.get("BEH", []))
+        missing = acts - {b[0]["op"] for b in got}
+        if missing:
+            raise MachineryError("no cases exported for %s" % sorted(missing))
+        return got
+
+    first_run = len(ctx.tlc_runs)
+    pool, nproc = make_pool()
+    ex = ThreadPoolExecutor(5)
+    try:
+        F, M = {}, {}
+        if part("behaviours"):
+            for name, acts, consts, depth in T["families"]:
+                F["fam:" + name] = ex.submit(export_family, name, acts, consts, depth)
+        if part("tour"):
+            F["tour"] = ex.submit(export_tour, T["tour"])
+        if part("simulate"):
+            for k, (acts, label) in enumerate([(ALL_ACTS, "all calls"),
+                                               (SO_ACTS | SI_ACTS | {"push", "pop", "mk"}, "staging + directory stack")]):
+                F["sim:%d" % k] = ex.submit(export_sim, T["simulate"], k, acts, label)
+        if part("pure"):
+            for i, P in enumerate(T["pure"]):
+                F["pure:%d" % i] = ex.submit(export_pure, i, P)
+        if part("mc"):
+            # 1. design level: the theorems of Staging.tla on every bounded history (the reading used for verdicts:
+            #    StrictExc = FALSE); these runs go on while the exported behaviours are executed and judged
+            for what, consts in T["models"]:
+                M["mc:" + what] = ex.submit(model, what, consts)
+            M["mc:strict"] = ex.submit(strict_holds, T["strict"])
+            M["mc:lenient"] = ex.submit(lenient_violates, T["strict"])
+        R = {k: f.result() for k, f in F.items()}
+        all_recs, groups = execute_and_judge(ctx, T, R, part, pool, nproc)
+        for f in M.values():
+            f.result()
+    finally:
+        ex.shutdown(wait=True, cancel_futures=True)
+        close_pool(pool)
+    ctx.tlc_runs[first_run:] = sorted(ctx.tlc_runs[first_run:], key=lambda r: r["what"])   # completion order -> fixed order
     if only:
         return
-    # 7. binding self-test
-    selftest(ctx, all_recs)
-    # 8. the strict reading as a lead (never a verdict): how the real code behaves when a with-block raises
-    if so_recs:
-        raised = [r for r in so_recs if any(e["op"] == "so_exit" and e["exc"] for e in r["done"]) and not r.get("rejected")]
-        rej = validate(ctx, [{"id": r["id"], "ev": [tla_event(e) for e in r["done"]]} for r in raised],
-                       "lead: traces with a raising with-block under the strict reading", strict=True, count=False)
-        partial_final = 0
-        for r in raised:
-            for e in r["done"]:
-                if e["op"] == "so_exit" and e["exc"]:
-                    o = next(x for x in r["done"] if x["op"] == "so_create" and x["o"] == e["o"])
-                    if o["td"] not in ("none", o["d"]) and e["obs"]["files"][o["d"]][o["nm"]] == "p1":
-                        partial_final += 1
-        ctx.note(lead_strict_reading={"traces_with_raising_block": len(raised), "rejected_by_strict_reading": len(rej),
-                                      "partial_file_at_final_path_after_raise": partial_final,
-                                      "note": "StagedOutFile.__exit__ ignores the exception and stages out whatever is at "
-                                              "sf.path; the documentation does not say what should happen, so this is "
-                                              "reported as a lead, not as a violation"})
 
-    for r in all_recs[:: max(1, len(all_recs) // 5)][:5]:
-        ctx.sample({"events": [{k: v for k, v in tla_event(e).items()} for e in r["done"][:3]],
-                    "calls": [e["info"].get("call") for e in r["done"][:3]]})
+    # 7. binding self-test  8. the strict reading as a lead (never a verdict): how the real code behaves when a with-block raises
+    so_recs = [r for r in all_recs if r["group"] == "fam:StagedOutFile"]
+    raised = [r for r in so_recs if any(e["op"] == "so_exit" and e["exc"] for e in r["done"]) and not r.get("rejected")]
+    first_run = len(ctx.tlc_runs)
+    with ThreadPoolExecutor(2) as ex:
+        f1 = ex.submit(selftest, ctx, all_recs)
+        f2 = ex.submit(validate, ctx, [{"id": r["id"], "ev": [tla_event(e) for e in r["done"]]} for r in raised],
+                       "lead: traces with a raising with-block under the strict reading", True, False)
+        f1.result()
+        rej = f2.result()
+    ctx.tlc_runs[first_run:] = sorted(ctx.tlc_runs[first_run:], key=lambda r: r["what"])
+    partial_final = 0
+    for r in raised:
+        for e in r["done"]:
+            if e["op"] == "so_exit" and e["exc"]:
+                o = next(x for x in r["done"] if x["op"] == "so_create" and x["o"] == e["o"])
+                if o["td"] not in ("none", o["d"]) and e["obs"]["files"][o["d"]][o["nm"]] == "p1":
+                    partial_final += 1
+    ctx.note(lead_strict_reading={"traces_with_raising_block": len(raised), "rejected_by_strict_reading": len(rej),
+                                  "partial_file_at_final_path_after_raise": partial_final,
+                                  "note": "StagedOutFile.__exit__ ignores the exception and stages out whatever is at "
+                                          "sf.path; the documentation does not say what should happen, so this is "
+                                          "reported as a lead, not as a violation"})
+
+    for kind in ("fam:StagedOutFile", "fam:StagedInFile", "sim", "random", "pure"):
+        r = next((r for r in all_recs if r["group"] == kind and len(r["done"]) >= 1), None)
+        if r:
+            ctx.sample({"group": kind, "events": [compact(e) for e in r["done"][:4]]})
     ctx.exhaustive = True
     x = ctx.extra
     ctx.rule = ("Staging.tla actions SOCreate/SOWrite/SOExit(exc)/SOStageOut, SICreate/SIExit(exc)/SICleanup, UserPut/RmDir, "
                 "DPush/DPop/DGetStack, MkFromFile, JWrite/JRead and the pure PathJoin/Expand/JRoundTrip/Dispatch; TLC explores "
                 "every history up to the depths in `models` (invariants FsInv ObjInv PopAllRestores BottomIsBase, action "
                 "properties StagingProps; FinalNeverPartial under the strict reading, shown violated under the documented "
-                "one); replayed into the real classes in a fresh /tmp/X03-* directory with real with-blocks: every behaviour "
-                "of length n per protocol family (%s), a transition tour of the depth-%d graph (%d edges = %d maximal "
-                "histories, %d replayed), %d of %d -simulate behaviours of depth %d over 3 objects / 2 stacks / 2 names / 6 "
-                "directories, %d seeded random call sequences of 5-16 calls that need not follow the protocol, and %d of %d "
-                "enumerated pure cases (%s); every path argument spelled in one of 8 ways (absolute, relative to the real "
-                "cwd, ~, $VAR, ${VAR}, .., through a symbolic link, trailing slash) where the call documents expansion; "
-                "after every call the scratch tree, cwd and every getstack() are projected onto the model state and the "
-                "trace is judged by StagingTrace.tla; a case is distinct by (event list, concrete spelling)" %
+                "one); replayed into the real classes in a scratch directory /tmp/X03-* reset to the pristine fixture before "
+                "every sequence, with real with-blocks: every behaviour of length n per protocol family (%s; at most %d replayed per family), a "
+                "transition "
+                "tour of the depth-%d graph (%d edges = %d maximal histories, %d replayed), %d of %d -simulate behaviours of "
+                "depth %d over 3 objects / 2 stacks / 2 names / 6 directories, %d seeded random call sequences of 5-16 calls "
+                "that need not follow the protocol, and %d of %d enumerated pure cases (%s); every path argument spelled in "
+                "one of 8 ways (absolute, relative to the real cwd, ~, $VAR, ${VAR}, .., through a symbolic link, trailing "
+                "slash) where the call documents expansion; after every call the scratch tree, cwd and every getstack() are "
+                "projected onto the model state and the trace is judged by StagingTrace.tla; a case is distinct by (event "
+                "list, concrete spelling)" %
                 (", ".join("%s: %d at n=%d" % (n.split()[0], x.get("behaviours_" + n.split()[0], 0), d)
-                           for n, _, _, d in T["families"]),
+                           for n, _, _, d in T["families"]), T["family_keep"],
                  T["tour"]["MaxDepth"], x.get("tour_edges", 0), x.get("tour_maximal_histories", 0),
                  x.get("tour_histories_replayed", 0), x.get("simulated_behaviours_replayed", 0),
                  x.get("simulated_behaviours_exported", 0), T["simulate"]["depth"], T["random"],
                  x.get("pure_cases_executed", 0), x.get("pure_cases_enumerated", 0), x.get("pure_cases_by_call", {})))
     ctx.note(models=[{"what": w, "constants": _fmt(c)} for w, c in T["models"]])
-    ctx.assumptions = [
-        "contract = docstrings of esutil/ostools.py, json_util.py, io.py and RELEASE_NOTES (clauses O1-O5, I1-I3, D1-D3, M1, P1, "
-        "E1, J1, T1 at the top of spec/Staging.tla); where they are silent every outcome is accepted",
-        "a with-block left by an exception: staged out as on a normal exit, temporary file kept, or temporary file discarded "
-        "are all accepted (the strict reading is evaluated as a lead only)",
-        "missing tmpdir / final directory: created or the call rejected; stage_out a second time: nothing or staged again; pop "
-        "on an empty stack: nothing or rejected; pop to a vanished directory: rejected, entry kept or lost",
-        "makedirs_fromfile(allow_fail=): docstring and RELEASE_NOTES contradict each other - when the directory cannot be made "
-        "raising and returning silently are both accepted for both values",
-        "path_join with empty sequences, expand_path of an unknown ~user, json of numpy types / nan / inf / non-string keys, io "
-        "dispatch on undocumented synonyms, upper-case extensions and compression suffixes (intended type or rejection): "
-        "unconstrained",
-        "crash points inside stage_out (between os.remove of the old final file and shutil.move) are not modelled; concurrent "
-        "processes are not modelled (one call at a time); hdfs paths and exec_process are out of scope",
-        "io dispatch is observed with every reader / writer replaced by a recording stub (only the choice is judged); real "
-        "round trips through io.read / io.write are made for json only",
-    ]
+    ctx.assumptions = ASSUMPTIONS
     ctx.trusted_base.append("x03 adapter: spelling of abstract paths, content-token <-> file text tables, projection of the "
                             "scratch tree / cwd / getstack() onto the model state, JSON value <-> node encoding")
-
-
-def judge_pure(ctx, single):
-    """pure cases were executed in groups; a violation's replay case is the single event"""
-    return judge(ctx, single, "judge the pure cases (StagingTrace)")
 
 
 def _act_of(mname):
@@ -1313,6 +1522,16 @@ def _act_of(mname):
 
 def _fmt(c):
     return {k: (sorted(v) if isinstance(v, (set, frozenset)) else v) for k, v in c.items()}
+
+
+def compact(e):
+    """an executed event written out for the evidence file"""
+    obs = e["obs"]
+    return {"call": {k: e[k] for k in PURE_FIELDS.get(e["op"], EV_FIELDS) if e[k] not in ("none", 0, False)},
+            "concrete": e["info"].get("call") or e["info"].get("how"),
+            "res": {k: v for k, v in e["res"].items() if v not in ("none", [], NOPATH)},
+            "state": {"files": {d + "/" + nm: t for d, fs in obs["files"].items() for nm, t in fs.items() if t != "absent"},
+                      "dirs": obs["dirs"], "cwd": obs["cwd"], "stacks": obs["stacks"], "extra": obs["extra"]}}
 
 
 def replay(ctx, case):
